@@ -64,6 +64,19 @@ TRANSPARENT = [
     r"std::slice::iter$",
     r"std::slice::into_vec$",
     r"<.* as std::iter::IntoIterator>::into_iter$",
+    r"<.* as std::iter::Iterator>::next$",
+    r"<.* as std::iter::Iterator>::cloned$",
+    r"<.* as std::iter::Iterator>::copied$",
+    r"<.* as std::iter::Iterator>::rev$",
+    r"<.* as std::iter::Iterator>::enumerate$",
+    r"<.* as std::iter::Iterator>::peekable$",
+    r"std::slice::iter_mut$",
+    r"std::slice::first$",
+    r"std::slice::last$",
+    r"std::vec::Vec::first$",
+    r"std::vec::Vec::last$",
+    r"<.* as std::ops::Index<.*>>::index$",
+    r"<.* as std::ops::IndexMut<.*>>::index_mut$",
     r"std::boxed::Box::new$",
     r"cosmwasm_std::Uint128::u128$",
     r"cosmwasm_std::Uint128::new$",
